@@ -5,6 +5,6 @@ CONSTANTS
   Extra = 1
   ExtraS = 2
   AllBytes = TRUE
-  Len2 = 5
+  Len2 = 4
 INVARIANTS Facts Emit
 CHECK_DEADLOCK FALSE
